@@ -174,10 +174,12 @@ class Result:
         self.stats = {}
         self.harness_errors = []
         self.sample_pool = {}
+        self.job_walls = []
 
     def absorb(self, job, count_hashes=True):
         """Fold one finished job into the result; classify crash / failure."""
         r = job.report
+        self.job_walls.append((round(job.wall, 1), job.label))
         if job.timed_out:
             self.inconclusive.append({"job": job.label, "reason": "time budget exhausted (%ds)" % job.timeout})
         if r:
@@ -309,6 +311,7 @@ def finish(res, confirm=True, custom_replay=None):
         "violations": [{"check": f["check"], "config": f["config"], "sig": f["sig"], "why": (f.get("why") or "")[:1500],
                         "replay": f.get("replay"), "replayed": f.get("replayed")} for f in violations[:20]],
     }
+    cov["slowest_jobs"] = sorted(res.job_walls, reverse=True)[:4]
     cov.update(res.extra)
     if res.stats:
         cov["statistics"] = res.stats
